@@ -11,7 +11,7 @@ open Golem.Go Golem.Model Golem.Model.DSL Golem.Model.StageCfg
 
 variable {σ α β ε : Type}
 
-attribute [local simp] runBody bind BodyM.bind pure BodyM.pure selSend plainSend ret next pollDone getS setS visit arrow
+attribute [local simp] runBody callsOf bind BodyM.bind pure BodyM.pure applyF selSend plainSend ret next pollDone getS setS visit arrow
   toExcept catchEm catchAfter mkStage
 
 /-- loop body and deferred sends: the regenerated `ForEach` IS the hand-written stage -/
@@ -20,6 +20,11 @@ theorem stage_gen (f : α → α × Option ε) :
   simp only [mkStage, forEachS, Stage.mk.injEq]
   refine ⟨?_, rfl⟩
   funext s a
+  simp [Golem.Gen.Fork.ForEach.body]
+
+/-- the regenerated loop body calls the user-supplied function exactly once per element, whatever the outcome -/
+theorem calls_gen (f : α → α × Option ε) (s : List α) (a : α) :
+    callsOf (Golem.Gen.Fork.ForEach.body f a) s = 1 := by
   simp [Golem.Gen.Fork.ForEach.body]
 
 /-- `make`, `go`, `close`: capacities, worker layout, close order -/
